@@ -274,6 +274,10 @@ def rule_r4(facts, col):
         if ins is None:
             col.silent("C04.R4", key, body.where(), "ADT not found")
             continue
+        if not ins:
+            col.bad("C04.R4", key, body.where(), "a generated eof() exists but no `#[rustradio(in)]` field was found on the struct "
+                    "(attribute extraction lost its anchor): cannot show that eof() covers all inputs", {})
+            continue
         called = {}
         for bb, t in body.calls():
             qs = Body.callee_qs(t)
